@@ -250,6 +250,9 @@ func (g *genC10) Block(w *World, b int) Block {
 		add(op)
 	}
 	blk.Steps = g.net.Apply(rng, b, len(w.nodes), steps)
+	if len(w.nodes) == 1 && rng.Chance(1, 50) {
+		blk.Reimport = true // restart of the whole chain from its own exported genesis
+	}
 	return blk
 }
 
